@@ -10,9 +10,22 @@ pub const PAT_ALPHA: &[u8] = b"abA$\\ !^'c";
 pub fn pick<T: Clone>(rng: &mut SplitMix, xs: &[T]) -> T {
     xs[rng.below(xs.len() as u64) as usize].clone()
 }
+/// a few non-ASCII characters (case pairs, a normalisable letter, a character outside the
+/// normalisation blocks): one string in eight gets some of them mixed in, which sends it through
+/// the code-point representation of the matcher instead of the ASCII one
+pub const NON_ASCII: &[char] = &['é', 'É', 'ß', 'ä', 'Ä', 'ñ', '漢'];
 pub fn rstr(rng: &mut SplitMix, alpha: &[u8], lo: u64, hi: u64) -> String {
     let n = lo + rng.below(hi - lo + 1);
-    (0..n).map(|_| alpha[rng.below(alpha.len() as u64) as usize] as char).collect()
+    let exotic = n > 0 && rng.below(8) == 0;
+    (0..n)
+        .map(|_| {
+            if exotic && rng.below(3) == 0 {
+                NON_ASCII[rng.below(NON_ASCII.len() as u64) as usize]
+            } else {
+                alpha[rng.below(alpha.len() as u64) as usize] as char
+            }
+        })
+        .collect()
 }
 fn weighted(rng: &mut SplitMix, w: &[u32]) -> usize {
     let total: u32 = w.iter().sum();
@@ -37,7 +50,11 @@ pub fn edit_text(rng: &mut SplitMix, text: &mut String) {
                 text.push_str(pick(rng, &["$", "\\", "\\$", " ", "\\ ", "!", "^", "'", "$$", "\\$$"]));
             } else {
                 for _ in 0..1 + rng.below(3) {
-                    text.push(PAT_ALPHA[rng.below(PAT_ALPHA.len() as u64) as usize] as char);
+                    if rng.below(16) == 0 {
+                        text.push(NON_ASCII[rng.below(NON_ASCII.len() as u64) as usize]);
+                    } else {
+                        text.push(PAT_ALPHA[rng.below(PAT_ALPHA.len() as u64) as usize] as char);
+                    }
                 }
             }
         }
@@ -47,9 +64,10 @@ pub fn edit_text(rng: &mut SplitMix, text: &mut String) {
         14..=15 => {
             // replace somewhere in the middle
             if !text.is_empty() {
-                let i = rng.below(text.len() as u64) as usize;
-                let c = PAT_ALPHA[rng.below(PAT_ALPHA.len() as u64) as usize] as char;
-                text.replace_range(i..i + 1, &c.to_string());
+                let mut chars: Vec<char> = text.chars().collect();
+                let i = rng.below(chars.len() as u64) as usize;
+                chars[i] = PAT_ALPHA[rng.below(PAT_ALPHA.len() as u64) as usize] as char;
+                *text = chars.into_iter().collect();
             }
         }
         16 => text.clear(),
@@ -85,7 +103,7 @@ fn haystacks_for(text: &str, out: &mut Vec<String>) {
         let core = raw.trim_start_matches(['!', '^', '\'']).trim_end_matches('$');
         let unescaped = raw.replace("\\$", "$").replace("\\ ", " ").replace('\\', "");
         for c in [raw.to_string(), core.to_string(), unescaped.clone(), format!("{core}a"), format!("b{core}"), format!("{unescaped} "), format!(" {raw}")] {
-            if !c.is_empty() && c.len() <= 12 && !out.contains(&c) {
+            if !c.is_empty() && c.chars().count() <= 12 && !out.contains(&c) {
                 out.push(c);
             }
         }
